@@ -236,13 +236,14 @@ class run_stub_generator_c:
         files = {n: sdsparse.parse(t) for n, t in READ_TREE(out_dir_path).items() if n.endswith(".sdsstub") and PARSES(t)}
         declared = {}
         pynames = {}
+        src_classes = {c.name for c in pyoracle.all_classes(pyoracle.package_modules(str(src_dir_path)))}
         for n, m in files.items():
             for d in m.decls:
                 declared.setdefault(m.package, set()).add(d.name)
                 pynames.setdefault(m.package, set()).add(d.pyname)
         for n, m in files.items():
             for pkg, name in m.imports:
-                if name not in declared.get(pkg, set()) and not KNOWN_IMPORT_NAME_REGION(name, declared.get(pkg, set()), pynames.get(pkg, set())):
+                if name not in declared.get(pkg, set()) and not KNOWN_IMPORT_NAME_REGION(name, declared.get(pkg, set()), pynames.get(pkg, set()) | (src_classes if declared.get(pkg) else set())):
                     return False
         return True
 
